@@ -104,21 +104,20 @@ def _func(f):
 
 
 def write_tla(facts, path, only=None):
-    """only = ("struct"|"func"|"layout", name) restricts the checked declarations to one (all structs stay, the
-    pairing needs them)"""
+    """only = ("struct"|"func"|"layout", name), or a list of such keys, restricts the checked declarations (all
+    structs stay in the data, the pairing needs them)"""
     cst, pst, fn = facts["cstructs"], facts["pystructs"], facts["funcs"]
     lines = ["---- MODULE AbiData ----",
              "\\* generated by /verif/lib/vf_abi on every run from %s - do not edit" % facts["repo"],
              "CStructs == << " + ",\n   ".join(_struct(s) for s in cst) + " >>",
              "PyStructs == << " + ",\n   ".join(_struct(s) for s in pst) + " >>",
              "Funcs == << " + ",\n   ".join(_func(f) for f in fn) + " >>"]
-    if only:
-        t, name = only
+    keys = [only] if (only and isinstance(only[0], str)) else list(only or [])
+    items = []
+    for t, name in keys:
         seq = dict(layout=cst, struct=pst, func=fn)[t]
-        idx = [i + 1 for i, x in enumerate(seq) if x["name"] == name]
-        lines.append("OnlyDecls == {%s}" % ", ".join('[t |-> "%s", i |-> %d]' % (t, i) for i in idx))
-    else:
-        lines.append("OnlyDecls == {}")
+        items += ['[t |-> "%s", i |-> %d]' % (t, i + 1) for i, x in enumerate(seq) if x["name"] == name]
+    lines.append("OnlyDecls == {%s}" % ", ".join(items))
     lines.append("====")
     with open(path, "w") as f:
         f.write("\n".join(lines) + "\n")
